@@ -4,9 +4,9 @@ import os
 from vf import Inconclusive, parallel, require_clean, validate_traces, trace_slice, vfj_lines, b2s
 
 CLAIM = {
-    "text": "TLC exhaustively checks implementation-shaped models of both scanners (ScannerImm/ScannerBuf: every stream over {a,CR,LF} up to the bound, every chunking, stall and failure position, buffer sizes 1..4) for exact splitting, single error report, no read after the end, buffer lifetime (no write under a handed-out view), refinement of the abstract Scanner and termination; every complete model behaviour is replayed on the real scanners (retained slices re-read at the end) and seeded random real executions (incl. the 128 KiB production wiring) are validated by TLC against the abstract spec.",
-    "note": "Bounded: exhaustive only within the stated stream length/alphabet/buffer sizes; beyond that seeded random traces. Trusted: Go runtime, the scripted io.Reader of the harness, TLC.",
-    "technique": "TLA+ refinement model checking (TLC) + model-behaviour replay + trace validation",
+    "text": "TLC exhaustively checks implementation-shaped models of both scanners (ScannerImm/ScannerBuf: every stream over {a,CR,LF} up to the bound, every chunking, stall and failure position, buffer sizes 1..4) for exact splitting, single error report, no read after the end, the end being final (Scan() called again: nothing read, returned or reported), buffer lifetime (no write under a handed-out view), refinement of the abstract Scanner and termination; ScannerBatch composes ScannerImm with the batching layer of batcher.go that sits directly on the scanner (the current batch as a view into a numbered backing array of slice headers, full / timer / final flushes, BatchStart, batches held by the channel or the consumer and released at any time, time passing inside Read or anywhere) and checks that no step writes a slot of a held batch, that every held batch still reads the lines start..start+n-1 of the byte stream, that the batches partition the scanner's lines in order with BatchStart the running count, and termination - with the negative controls 'backing array recycled after a timer flush' and 'after a full flush' refuted and 'after the final flush' passing. Every complete model behaviour is replayed on the real scanners (Scan/Bytes, ReadLine, with and without error callback, two more Scan() calls after the end, retained slices re-read at the end) and on the real batcher paths (syncReaderToBatcherWithTimeFlush through batchers.VerifOpenReaderToChan with a 10 ms interval and a scripted source whose pauses force timer flushes of partial batches, batch sizes 1..4 and 100, a prompt and a queue-everything consumer that hold EVERY batch to the end and re-read all lines; syncReaderToBatcher through OpenFilesToChan); seeded random real executions (incl. the 128 KiB production wiring, pausing sources, the production 250 ms path, several files per call) are validated by TLC against the abstract spec.",
+    "note": "Bounded: exhaustive only within the stated stream length/alphabet/buffer and batch sizes; beyond that seeded random traces. Where a batch is cut is time-dependent and not part of the verdict (only: lines, order, BatchStart, 1 <= length <= batch size). Trusted: Go runtime, the scripted io.Reader of the harness, TLC.",
+    "technique": "TLA+ refinement model checking (TLC) with negative controls + model-behaviour replay + trace validation",
 }
 
 ALPHA = "{97, 13, 10}"
@@ -14,8 +14,9 @@ INVS = "Bounds PrefixOK EndOK ErrOK NoReadAfterEnd Lifetime"
 
 
 def mc_cfg(maxlen, buf, stall=1):
-    return ("SPECIFICATION Spec\nCONSTANTS Alphabet = %s\n MaxLen = %d\n BufSize = %d\n MaxStall = %d\n"
-            "INVARIANTS %s\nPROPERTIES Refines Terminates\nCHECK_DEADLOCK FALSE\n" % (ALPHA, maxlen, buf, stall, INVS))
+    # SpecA: Spec + Scan() called again after it returned false (EndIsFinal: nothing happens any more)
+    return ("SPECIFICATION SpecA\nCONSTANTS Alphabet = %s\n MaxLen = %d\n BufSize = %d\n MaxStall = %d\n"
+            "INVARIANTS %s\nPROPERTIES Refines Terminates EndIsFinal\nCHECK_DEADLOCK FALSE\n" % (ALPHA, maxlen, buf, stall, INVS))
 
 
 def gen_cfg(maxlen, buf, stall=1):
@@ -23,48 +24,193 @@ def gen_cfg(maxlen, buf, stall=1):
             "INVARIANTS Dump\nCHECK_DEADLOCK FALSE\n" % (ALPHA, maxlen, buf, stall))
 
 
+BINVS = INVS + " BTypeOK BatchLifetime BatchLinesOK PartitionOK KindOK BFinalOK"
+
+
+def bmc_cfg(maxlen, buf, pb, timed, reuse="never", invs=BINVS, props="BatchStable ScannerIsImm BTerminates"):
+    return ("SPECIFICATION BSpec\nCONSTANTS Alphabet = %s\n MaxLen = %d\n BufSize = %d\n MaxStall = 1\n PBatch = %d\n"
+            " Timed = %s\n ReuseOn = \"%s\"\nINVARIANTS %s\n%sCHECK_DEADLOCK FALSE\n" % (
+                ALPHA, maxlen, buf, pb, "TRUE" if timed else "FALSE", reuse, invs,
+                ("PROPERTIES %s\n" % props) if props else ""))
+
+
+def bgen_cfg(maxlen, pb, timed):
+    # the batcher always runs the scanner with its 128 KiB buffer: no regrow in the generated behaviours
+    return ("INIT GInit\nNEXT GNext\nCONSTANTS Alphabet = {97, 10}\n MaxLen = %d\n BufSize = %d\n MaxStall = 0\n PBatch = %d\n"
+            " Timed = %s\n ReuseOn = \"never\"\nINVARIANTS Dump\nCHECK_DEADLOCK FALSE\n" % (
+                maxlen, maxlen + 4, pb, "TRUE" if timed else "FALSE"))
+
+
+def batch_model_jobs(run, quick):
+    """B3 for the batching layer on top of the scanner (ScannerBatch.tla) incl. negative controls."""
+    jobs = []
+    if quick:
+        cfgs = [(4, 2, 2, True), (3, 1, 2, True), (3, 3, 2, True), (3, 2, 1, True), (3, 2, 3, True), (3, 2, 2, False), (4, 2, 3, False)]
+    else:
+        cfgs = [(5, b, pb, t) for b in (1, 2, 3) for pb in (1, 2, 3) for t in (True, False)] + \
+               [(6, 2, 2, True), (6, 3, 3, True), (6, 2, 3, False)]
+    for ml, b, pb, t in cfgs:
+        # the largest models (MaxLen 6, 1-2 M states): invariants only; the action properties and liveness are
+        # checked on every smaller configuration
+        jobs.append(lambda ml=ml, b=b, pb=pb, t=t: ("bmc", (ml, b, pb, t), run.tlc(
+            "ScannerBatch", bmc_cfg(ml, b, pb, t, props=("" if ml >= 6 and t else "BatchStable ScannerIsImm BTerminates")),
+            workers=4, timeout=3000, coverage=(b == 2 and pb == 2 and ml < 6),
+            label="ScannerBatch MaxLen=%d BufSize=%d PBatch=%d Timed=%s" % (ml, b, pb, t))))
+    # negative controls: recycling the batch's backing array after a timer flush / a full flush must be
+    # refuted on every statement of the batch lifetime; after the final flush it is harmless
+    negs = [("timer", "BatchLifetime", None), ("timer", "BatchLinesOK", None), ("timer", "BTypeOK", "BatchStable"),
+            ("full", "BatchLifetime", None)]
+    if not quick:
+        negs += [("full", "BatchLinesOK", None), ("full", "BTypeOK", "BatchStable")]
+    for reuse, inv, prop in negs:
+        jobs.append(lambda reuse=reuse, inv=inv, prop=prop: ("bneg", (reuse, prop or inv), run.tlc(
+            "ScannerBatch", bmc_cfg(4, 2, 2, True, reuse, inv, prop), workers=2, timeout=3000,
+            label="ScannerBatch ReuseOn=%s [%s] negative control: must be violated" % (reuse, prop or inv))))
+    fl = 3 if quick else 5
+    jobs.append(lambda: ("bmc", (fl, 2, 2, "final"), run.tlc(
+        "ScannerBatch", bmc_cfg(fl, 2, 2, True, "final"), workers=4, timeout=3000,
+        label="ScannerBatch ReuseOn=final (harmless control: must pass)")))
+    return jobs
+
+
+def batch_model_result(run, kind, what, r):
+    if kind == "bneg":
+        if what[1] not in r.violated:
+            raise Inconclusive("negative control passed: ScannerBatch ReuseOn=%s does not violate %s\n%s" % (what[0], what[1], r.out[-2000:]))
+        return
+    require_clean(run, r, "ScannerBatch %s" % (what,))
+    if r.coverage:
+        acts = ["BScan", "BAppend", "FlushFull", "NoFlush", "FlushFinal", "Release"]
+        if what[3] is True:
+            acts += ["FlushTimer", "TickRead", "TickAny"]
+        zero = [a for a in acts if r.coverage.get("ScannerBatch." + a, (0, 0))[0] == 0]
+        if zero:
+            raise Inconclusive("vacuous model: ScannerBatch actions never taken: %s" % zero)
+
+
+def batch_gen_jobs(run, quick):
+    gl = 4 if quick else 5
+    jobs = []
+    for pb in (1, 2, 3, 4, 100):
+        for timed in (True, False):
+            if quick and not timed and pb == 4:
+                continue
+            jobs.append(lambda pb=pb, timed=timed: ("bgen", (pb, timed), run.tlc(
+                "ScannerBatch_Gen", bgen_cfg(gl, pb, timed), workers=2, timeout=3000,
+                label="ScannerBatch_Gen MaxLen=%d PBatch=%d Timed=%s" % (gl, pb, timed))))
+    return jobs
+
+
+def batch_replay_report(run, res):
+    """B1 for the batching layer: every complete behaviour of ScannerBatch_Gen replayed on the real batcher paths."""
+    mism = res["mismatches"] or []
+    stats = {k: v for k, v in res.items() if k not in ("mismatches", "samples")}
+    if any(m["kind"] == "hang" for m in mism):
+        raise Inconclusive("batcher replay: the harness timed out waiting for the batch channel to close")
+    run.cov["traces_validated_against_impl"] += res["runs"]
+    run.cov["evaluations"] += res["runs"]
+    run.cov["distinct_nontrivial"] += res["distinct_nontrivial"]
+    run.cov["b1_batch"] = stats
+    for s in res["samples"] or []:
+        run.sample({"b1_batch_vector": s})
+    seen = {}
+    for m in mism:
+        sig = "b1:batch:%s:%s" % (m["path"], m["kind"])
+        seen[sig] = seen.get(sig, 0) + 1
+        if seen[sig] > 3:
+            continue
+        v = m["vector"] or {}
+        run.violation(sig, "batcher (%s, batch size %s): %s on script %s: got %s; spec lines %s in batches %s%s" % (
+            m["path"], v.get("pb"), m["kind"], [(b2s(x["d"]), x["e"], "pause" if x["p"] else "") for x in v.get("reads", [])],
+            json.dumps(m["got"])[:400], [b2s(t) for t in v.get("toks", [])],
+            [(b["start"], b["n"], b["kind"]) for b in v.get("batches", [])],
+            "" if seen[sig] < 3 else " (%d more of this class not shown)" % (sum(1 for x in mism if "b1:batch:%s:%s" % (x["path"], x["kind"]) == sig) - 3)), m)
+    # the schedules must really have exercised the timer path (partial batches flushed before the end)
+    if not mism and (res["partial_batches_observed"] < 1000 or res["timed_realized"] * 2 < res["timed_runs"]):
+        raise Inconclusive("batcher replay did not realise the schedules: %s" % stats)
+
+
 def check(run):
     quick = run.tier == "quick"
     run.assumptions += [
         "io.Reader contract: a reader returns n<=len(p); (0,nil) is allowed only finitely often",
         "B3 bounds: alphabet {a,CR,LF}, total stream length and buffer sizes as listed in tlc_runs",
+        "batching layer: the verdict binds to the lines (at hand-out and re-read at the end), BatchStart = running count, "
+        "1 <= batch length <= batch size; WHERE a batch is cut is not demanded (time-dependent; reported as coverage only)",
     ]
     run.build_harness()
-    # ---- B3: exhaustive model check of the implementation-shaped models + refinement + liveness
+    jto = os.environ.get("JAVA_TOOL_OPTIONS")
+    if quick:
+        # ~30 short TLC runs: most of their CPU time is JIT compilation; C1 only for them
+        # (measured: 8 s -> 2.7 s CPU per generator run); restored before the long trace validation
+        os.environ["JAVA_TOOL_OPTIONS"] = ((jto or "") + " -XX:TieredStopAtLevel=1").strip()
+    tr = os.path.join(run.scratch, "c04-trace.ndjson")
+    # ---- all TLC model runs in one pool; the B2 recording (Go only) runs beside it
+    # B3: exhaustive model check of the implementation-shaped models + refinement + liveness
     ml = 5 if quick else 7
     jobs = []
     for mod, bufs in (("ScannerImm", (1, 2, 3) if quick else (1, 2, 3, 4)),
                       ("ScannerBuf", (2, 3) if quick else (2, 3, 4, 5))):
         for b in bufs:
-            jobs.append(lambda mod=mod, b=b: (mod, b, run.tlc(mod, mc_cfg(ml, b), workers=4, label="%s MaxLen=%d BufSize=%d" % (mod, ml, b),
-                                                              coverage=(b == 2), timeout=3000)))
-    for mod, b, r in parallel(jobs, 4):
-        require_clean(run, r, "%s buf=%d" % (mod, b))
-        if b == 2:
-            zero = [a for a, (n, _) in r.coverage.items() if n == 0 and a.split(".")[1] in
-                    ("Call", "Restart", "Grow", "Read", "OnErr", "Check", "Search", "Fill")]
-            if zero:
-                raise Inconclusive("vacuous model: actions never taken: %s" % zero)
-    # ---- B1: every complete behaviour of the models replayed on the real scanners
+            jobs.append(lambda mod=mod, b=b: ("mc", (mod, b), run.tlc(mod, mc_cfg(ml, b), workers=4, label="%s MaxLen=%d BufSize=%d" % (mod, ml, b),
+                                                                      coverage=(b == 2), timeout=3000)))
+    jobs += batch_model_jobs(run, quick)
+    # B1 generators: every complete behaviour of the models
     gl = 4 if quick else 5
-    vec_path = os.path.join(run.scratch, "c04-vectors.ndjson")
-    jobs = []
     for mod, bufs in (("ScannerImm_Gen", (1, 2, 3)), ("ScannerBuf_Gen", (2, 3))):
         for b in bufs:
-            jobs.append(lambda mod=mod, b=b: run.tlc(mod, gen_cfg(gl, b), workers=4, timeout=3000,
-                                                     label="%s MaxLen=%d BufSize=%d" % (mod, gl, b)))
-    nvec = 0
-    with open(vec_path, "w") as f:
-        for r in parallel(jobs, 4):
-            if r.violated or r.errors:
-                raise Inconclusive("generator failed: %s" % r.out[-2000:])
-            for v in vfj_lines(r.out):
-                f.write(json.dumps(v, separators=(",", ":")) + "\n")
-                nvec += 1
+            jobs.append(lambda mod=mod, b=b: ("gen", (mod, b), run.tlc(mod, gen_cfg(gl, b), workers=4, timeout=3000,
+                                                                       label="%s MaxLen=%d BufSize=%d" % (mod, gl, b))))
+    jobs += batch_gen_jobs(run, quick)
+
+    def record():
+        return run.drv(["trace", "-out", tr, "-n", 400 if quick else 4000, "-maxlen", 300 if quick else 1500,
+                        "-big", 1 if quick else 4, "-bt", 300 if quick else 3000, "-b250", 2 if quick else 12,
+                        "-bfiles", 20 if quick else 200])
+    try:
+        results, _ = parallel([lambda: parallel(jobs, 4), record], 2)
+    finally:
+        if jto is None:
+            os.environ.pop("JAVA_TOOL_OPTIONS", None)
+        else:
+            os.environ["JAVA_TOOL_OPTIONS"] = jto
+    vec_path = os.path.join(run.scratch, "c04-vectors.ndjson")
+    bvec_path = os.path.join(run.scratch, "c04-bvectors.ndjson")
+    nvec, nbvec = 0, 0
+    with open(vec_path, "w") as f, open(bvec_path, "w") as bf:
+        for kind, what, r in results:
+            if kind == "mc":
+                mod, b = what
+                require_clean(run, r, "%s buf=%d" % (mod, b))
+                if b == 2:
+                    zero = [a for a, (n, _) in r.coverage.items() if n == 0 and a.split(".")[1] in
+                            ("Call", "Restart", "Grow", "Read", "OnErr", "Check", "Search", "Fill", "Again")]
+                    if zero:
+                        raise Inconclusive("vacuous model: actions never taken: %s" % zero)
+            elif kind in ("bmc", "bneg"):
+                batch_model_result(run, kind, what, r)
+            else:
+                if r.violated or r.errors:
+                    raise Inconclusive("generator failed: %s" % r.out[-2000:])
+                for v in vfj_lines(r.out):
+                    if kind == "gen":
+                        f.write(json.dumps(v, separators=(",", ":")) + "\n")
+                        nvec += 1
+                    else:
+                        bf.write(json.dumps(v, separators=(",", ":")) + "\n")
+                        nbvec += 1
     if nvec < 1000:
         raise Inconclusive("generator produced only %d vectors" % nvec)
+    if nbvec < 5000:
+        raise Inconclusive("batch generator produced only %d vectors" % nbvec)
+    # ---- B1 replays (Go) and B2 validation (TLC) side by side
     res_path = os.path.join(run.scratch, "c04-replay.json")
-    run.drv(["replay", "-in", vec_path, "-out", res_path])
+    bres_path = os.path.join(run.scratch, "c04-breplay.json")
+    _, _, (tres, tr_r) = parallel([
+        lambda: run.drv(["replay", "-in", vec_path, "-out", res_path]),
+        lambda: run.drv(["breplay", "-in", bvec_path, "-out", bres_path, "-interval", 10, "-pause", 25, "-par", 512]),
+        lambda: validate_traces(run, "Scanner_Trace", tr, invariants=("Final", "ErrOnce"), xmx="12g")], 3)
+    # ---- B1: every complete behaviour of the models replayed on the real scanners
     res = json.load(open(res_path))
     run.cov["traces_validated_against_impl"] += res["runs"]
     run.cov["evaluations"] += res["runs"]
@@ -77,11 +223,9 @@ def check(run):
                       "scanner %s: %s on script %s (buf %d): got %s, spec tokens %s" % (
                           m["variant"], m["kind"], [(b2s(x["d"]), x["e"]) for x in v["reads"]], v["buf"],
                           m["got"], [b2s(t) for t in v["toks"]]), m)
+    batch_replay_report(run, json.load(open(bres_path)))
     # ---- B2: recorded random executions validated against the abstract Scanner
-    tr = os.path.join(run.scratch, "c04-trace.ndjson")
-    p = run.drv(["trace", "-out", tr, "-n", 400 if quick else 4000, "-maxlen", 300 if quick else 1500,
-                 "-big", 1 if quick else 4])
-    res, r = validate_traces(run, "Scanner_Trace", tr, invariants=("Final", "ErrOnce"), xmx="12g")
+    res, r = tres, tr_r
     ntr = sum(1 for line in open(tr) if '"event":"reset"' in line)
     run.cov["traces_validated_against_impl"] += ntr
     run.cov["evaluations"] += ntr
@@ -97,7 +241,12 @@ def check(run):
         path = run.save_replay("trace-%d.ndjson" % bad["t"], sl)
         variant = json.loads(sl.splitlines()[0])["variant"]
         run.violation("b2:%s:%s" % (variant, json.loads(ev)["event"]),
-                      "recorded execution of the %s scanner is not a behaviour of Scanner.tla: rejected event %s" % (variant, ev[:300]), path)
+                      "recorded execution of the %s %s is not a behaviour of Scanner.tla: rejected event %s" % (
+                          variant, "path" if variant.startswith("batcher-") else "scanner", ev[:300]), path)
     run.cov["rule"] = ("B3: all behaviours of ScannerImm/ScannerBuf within bounds; B1: every complete model behaviour "
                        "(reader script) replayed on both real scanners, non-trivial = >1 token; "
-                       "B2: seeded random streams/chunkings/failures, one trace each")
+                       "B2: seeded random streams/chunkings/failures, one trace each; batching layer: B3 all behaviours of "
+                       "ScannerBatch (scanner x batch views x timer x release) within bounds + negative controls, B1 every "
+                       "complete behaviour (script with pauses, batch size 1..4,100) on the real timed path (two consumer "
+                       "disciplines, every batch held to the end) and the file path, non-trivial = >1 batch; B2 random "
+                       "pausing sources through VerifOpenReaderToChan / OpenReaderToChan (250 ms) / OpenFilesToChan")
